@@ -164,7 +164,7 @@ func goReplacement(g *ast.GoStmt) ast.Stmt {
 	}
 
 	spawn := &ast.ExprStmt{X: &ast.CallExpr{
-		Fun: &ast.SelectorExpr{X: ast.NewIdent("vsched"), Sel: ast.NewIdent("Go")},
+		Fun: &ast.SelectorExpr{X: ast.NewIdent("vsched"), Sel: ast.NewIdent("GoWoven")},
 		Args: []ast.Expr{&ast.FuncLit{
 			Type: &ast.FuncType{Params: &ast.FieldList{}},
 			Body: &ast.BlockStmt{List: []ast.Stmt{&ast.ExprStmt{X: newCall}}},
